@@ -113,6 +113,9 @@ func (s *Store) AddPeer(peer string) error {
 // Peers returns the addresses of all known peers.
 func (s *Store) Peers() (peers []syncer.PeerInfo, _ error) {
 	err := s.transaction(func(tx *txn) error {
+		// the transaction may be retried: start from an empty result
+		peers = peers[:0]
+
 		const query = `SELECT peer_address, first_seen FROM syncer_peers`
 		rows, err := tx.Query(query)
 		if err != nil {
